@@ -49,9 +49,9 @@ def st_amount(draw, kind, profile):
     if kind == "supply":
         return draw(st.one_of(st.tuples(st.just("wallet"), st.sampled_from(FR)), st.tuples(st.just("abs"), st.sampled_from(["0", "0.000001", "1", "3.7", "1000", "1000000000000"]))))
     if kind == "withdraw":
-        return draw(st.one_of(st.none(), st.tuples(st.just("supply"), st.sampled_from(FR)), st.tuples(st.just("maxwithdraw"), st.sampled_from(["0.5", "0.999", "1", "1.001", "1.01", "2"])), st.tuples(st.just("abs"), st.sampled_from(["0", "0.01", "1"]))))
+        return draw(st.one_of(st.none(), st.tuples(st.just("supply"), st.sampled_from(FR)), st.tuples(st.just("maxwithdraw"), st.sampled_from(["0.5", "0.999", "0.999999999999", "1", "1", "1.000000000001", "1.001", "1.01", "2"])), st.tuples(st.just("abs"), st.sampled_from(["0", "0.01", "1"]))))
     if kind == "borrow":
-        return draw(st.one_of(st.none(), st.tuples(st.just("maxborrow"), st.sampled_from(["0.1", "0.5", "0.999", "1", "1.0101", "1.0202", "2"])), st.tuples(st.just("abs"), st.sampled_from(["0", "0.001", "1", "100", "5000", "1000000000"]))))
+        return draw(st.one_of(st.none(), st.tuples(st.just("maxborrow"), st.sampled_from(["0.1", "0.5", "0.999", "1", "1", "1.0101", "1.01010101", "1.01010102", "1.0202", "2"])), st.tuples(st.just("abs"), st.sampled_from(["0", "0.001", "1", "100", "5000", "1000000000"]))))
     if kind == "repay":
         return draw(st.one_of(st.none(), st.tuples(st.just("debt"), st.sampled_from(FR)), st.tuples(st.just("wallet"), st.sampled_from(["0.5", "1"])), st.tuples(st.just("abs"), st.sampled_from(["0", "0.5", "100"]))))
     raise ValueError(kind)
@@ -110,7 +110,7 @@ def st_case(draw, profile="chaos", max_bars=8, max_ops=5):
     for nm in names:
         units = draw(st.sampled_from(["0", "1", "1", "10", "10", "1000", "123456.789"]))
         wallet[nm] = dstr(D(units) * (D(10000) / D(BASE_PRICE[nm])).quantize(D("0.0001")) if units not in ("0",) else D(0))
-    equal_idx = draw(st.booleans())
+    equal_idx = draw(st.booleans()) if profile != "liq" else draw(st.integers(0, 5)) == 0
     li = {nm: D(1) + D(draw(st.integers(0, 6 * 10**8))) / D(10**9) for nm in names}
     bi = {nm: li[nm] if equal_idx else D(1) + D(draw(st.integers(0, 8 * 10**8))) / D(10**9) for nm in names}
     if equal_idx:
@@ -136,14 +136,17 @@ def st_case(draw, profile="chaos", max_bars=8, max_ops=5):
             if crash_at is not None and i >= crash_at:
                 # adverse move: collateral-like tokens fall / debt-like tokens rise, to drive the health factor down
                 nm = draw(st.sampled_from(names))
-                px[nm] = px[nm] * (D(draw(st.sampled_from([500, 700, 850, 930, 970, 990, 1030, 1100, 1300, 1800]))) / D(1000))
+                px[nm] = px[nm] * (D(draw(st.sampled_from([500, 700, 850, 930, 930, 970, 970, 990, 990, 1030, 1100, 1300, 1800]))) / D(1000))
+                if profile == "liq":
+                    nm = draw(st.sampled_from(names))
+                    px[nm] = px[nm] * (D(draw(st.sampled_from([600, 800, 900, 950, 980, 995, 1010, 1250]))) / D(1000))
         ops = [draw(st_op(names, profile)) for _ in range(draw(st.integers(0, max_ops)))]
-        if i == 0 and draw(st.integers(0, 4)) > 0:
+        if i == 0 and (profile == "liq" or draw(st.integers(0, 4)) > 0):
             pro = []
             for k in range(draw(st.integers(1, 3))):
                 pro.append(["supply", f"@funded:{k}", ["wallet", draw(st.sampled_from(["0.1", "0.5", "0.9"]))], draw(st.sampled_from([True, True, True, False]))])
-            for k in range(draw(st.integers(0, 2))):
-                pro.append(["borrow", draw(st.sampled_from(names)), ["maxborrow", draw(st.sampled_from(["0.2", "0.5", "0.9", "1"]))]])
+            for k in range(draw(st.integers(0 if profile != "liq" else 1, 2 if profile != "liq" else 3))):
+                pro.append(["borrow", draw(st.sampled_from([t["name"] for t in tokens if t["borrow"]])), ["maxborrow", draw(st.sampled_from(["0.2", "0.5", "0.9", "1"] if profile != "liq" else ["0.5", "0.9", "1", "1"]))]])
             ops = pro + ops
         bars.append(
             {
